@@ -20,6 +20,24 @@ ufunc('qidx', ['List[Application]', 'Application'], 'Int')
 ufunc('in_cell', ['Node'], 'Bool')
 
 
+# the partition an instance belongs to (label of the partition whose allocation tree holds it): C06 clause 1 /
+# InvAlloc is assumed in this form at Allocation.utilization_queue
+ufunc('app_label', ['Application'], 'Opt[Name]')
+
+
+@spec
+def in_queue(queue, a):
+    return 0 <= qidx(queue, a) and qidx(queue, a) < len(queue) and queue[qidx(queue, a)] == a
+
+
+@spec
+def others_untouched(queue, cell):
+    """A walk changes the server and the identity of instances of its own queue only."""
+    return forall(lambda n: implies(n in cell.apps and not in_queue(queue, cell.apps[n]),
+                                    cell.apps[n].server == old(cell.apps[n].server) and
+                                    cell.apps[n].identity == old(cell.apps[n].identity)), 'Name')
+
+
 @spec
 def queue_ok(queue, cell):
     """The queue lists instances of the cell, each once."""
@@ -396,18 +414,21 @@ contract(M + ':Cell._find_placements',
          requires=['in_cell(self)', 'queue_ok(queue, self)', 'cell_inv(self, servers)', 'cycle_ctx(servers)',
                    'no_renew(self)',
                    ('C05', 'groups_ok(self)'), ('C05', 'held_distinct(self)'), ('C05', 'held_not_free(self)'), ('C05', 'in_range_ok(self)'),
-                   ('C05,C08', 'blacklist_ok(self)'),
+                   'blacklist_ok(self)',
                    # clause 4 holds when the walk starts (left by the previous cycle and the pre-passes)
-                   ('C05', 'all_unplaced_free(self)'), ('C05', 'ident_nonneg(self)'),
+                   ('C05', 'ident_nonneg(self)'),
                    ('C03', 'standing_ok(self, servers)'),
                    ('C04', 'tree_wf()'), ('C04', 'self.parent is None'), ('C04', 'limits_shared(self)'),
                    ('C04', 'lim_ok()')],
          ensures=['apps_ok(self)', 'srv_ok(servers)', 'link_ok(self, servers)', 'back_ok(self, servers)',
                   'ident_ok(self)', 'all_strategies_ok()', 'strat_nodes_ok()', 'no_renew(self)',
                   ('C05', 'groups_ok(self)'), ('C05', 'held_distinct(self)'), ('C05', 'held_not_free(self)'), ('C05', 'in_range_ok(self)'),
-                  # clause 4: at the end of the cycle an instance that is not placed holds no identity
-                  ('C05', 'all_unplaced_free(self)'), ('C05', 'ident_nonneg(self)'),
-                  ('C05,C08', 'blacklist_ok(self)'),
+                  # clause 4: at the end of the walk an instance of this queue that is not placed holds no identity
+                  ('C05', 'forall(lambda j: implies(0 <= j and j < len(queue), unplaced_free(queue[j])), "Int")',
+                   'queue_free'),
+                  ('C05', 'others_untouched(queue, self)', 'others_untouched'),
+                  ('C05', 'ident_nonneg(self)'),
+                  'blacklist_ok(self)',
                   # C03 (a): whatever this walk assigned went to an up server of the right partition, with the
                   # traits, and with the lease ending before the server's reboot time
                   ('C03', 'forall(lambda n: implies(n in self.apps and self.apps[n].server is not None and '
@@ -428,12 +449,11 @@ invariant(M + ':Cell._find_placements', 0, 'for app in queue',
            'implies(_i < len(queue), not queue[_i].renew)',
            'alive(placement_tracker)',
            ('C05', 'groups_ok(self)'), ('C05', 'held_distinct(self)'), ('C05', 'held_not_free(self)'), ('C05', 'in_range_ok(self)'),
-           ('C05,C08', 'blacklist_ok(self)'),
-           # only this cycle's victims whose turn is still to come are unplaced with an identity
-           ('C05', 'forall(lambda n: implies(n in self.apps and not unplaced_free(self.apps[n]), '
-                   '       self.apps[n] in evicted), "Name")'),
-           ('C05', 'forall(lambda a: implies(a in evicted and not unplaced_free(a), _i <= qidx(queue, a)), '
-                   '       "Application")'),
+           'blacklist_ok(self)',
+           # clause 4: every instance already walked is placed or holds no identity (whatever it held when the
+           # walk started: a server removed between cycles leaves its instances unplaced with their identities)
+           ('C05', 'forall(lambda j: implies(0 <= j and j < _i, unplaced_free(queue[j])), "Int")', 'visited_free'),
+           ('C05', 'others_untouched(queue, self)', 'others_untouched'),
            ('C05', 'ident_nonneg(self)'),
            ('C05', 'forall(lambda a: implies(a in evicted, not a.blacklisted), "Application")'),
            ('C03', 'standing_ok(self, servers)'),
@@ -463,11 +483,10 @@ invariant(M + ':Cell._find_placements', 1, 'for evicted_app in reversed_queue',
            'evicted_ok(evicted, queue, servers, qidx(queue, app) + 1)',
            'no_renew(self)',
            ('C05', 'groups_ok(self)'), ('C05', 'held_distinct(self)'), ('C05', 'held_not_free(self)'), ('C05', 'in_range_ok(self)'),
-           ('C05,C08', 'blacklist_ok(self)'),
-           ('C05', 'forall(lambda n: implies(n in self.apps and not unplaced_free(self.apps[n]) and '
-                   '       self.apps[n] != app, self.apps[n] in evicted), "Name")'),
-           ('C05', 'forall(lambda a: implies(a in evicted and a != app and not unplaced_free(a), '
-                   '       qidx(queue, app) < qidx(queue, a)), "Application")'),
+           'blacklist_ok(self)',
+           ('C05', 'forall(lambda j: implies(0 <= j and j < qidx(queue, app), unplaced_free(queue[j])), "Int")',
+            'visited_free'),
+           ('C05', 'others_untouched(queue, self)', 'others_untouched'),
            ('C05', 'ident_nonneg(self)'),
            ('C05', 'forall(lambda a: implies(a in evicted, not a.blacklisted), "Application")'),
            ('C03', 'standing_ok(self, servers)'),
@@ -532,13 +551,13 @@ contract(M + ':Cell._fix_invalid_placements',
          types={'queue': 'List[Application]', 'servers': 'Dict[Name,Server]'},
          requires=['covers(queue, self)', 'apps_ok(self)', 'srv_ok(servers)', 'back_ok(self, servers)',
                    'weak_link(self, servers)', 'ident_weak(self, servers)',
-                   ('C05', 'groups_ok(self)'), ('C05', 'held_distinct(self)'), ('C05', 'held_not_free(self)'), ('C05', 'ident_nonneg(self)'), ('C05', 'all_unplaced_free(self)'),
+                   ('C05', 'groups_ok(self)'), ('C05', 'held_distinct(self)'), ('C05', 'held_not_free(self)'), ('C05', 'ident_nonneg(self)'),
                    ('C03', 'standing_ok(self, servers)'),
                    ('C04', 'tree_wf()'), ('C04', 'self.parent is None'), ('C04', 'limits_shared(self)'),
                    ('C04', 'lim_ok()')],
          ensures=['apps_ok(self)', 'srv_ok(servers)', 'back_ok(self, servers)', 'link_ok(self, servers)',
                   'ident_ok(self)',
-                  ('C05', 'groups_ok(self)'), ('C05', 'held_distinct(self)'), ('C05', 'held_not_free(self)'), ('C05', 'ident_nonneg(self)'), ('C05', 'all_unplaced_free(self)'),
+                  ('C05', 'groups_ok(self)'), ('C05', 'held_distinct(self)'), ('C05', 'held_not_free(self)'), ('C05', 'ident_nonneg(self)'),
                   ('C03', 'standing_ok(self, servers)'), ('C03', 'clock_now() >= old(clock_now())'),
                   ('C03', 'only_unplaced(self)'),
                   ('C08', 'forall(lambda n: implies(n in self.apps and old(self.apps[n].server) is not None and old(self.apps[n].server) in servers, self.apps[n].server == old(self.apps[n].server)), "Name")')],
@@ -549,7 +568,7 @@ invariant(M + ':Cell._fix_invalid_placements', 0, 'for app in queue',
           ['srv_ok(servers)', 'back_ok(self, servers)', 'weak_link(self, servers)', 'ident_weak(self, servers)',
            # instances already visited satisfy the strong link
            'forall(lambda j: implies(0 <= j and j < _i, placed_ok(queue[j], servers)), "Int")',
-           ('C05', 'groups_ok(self)'), ('C05', 'held_distinct(self)'), ('C05', 'held_not_free(self)'), ('C05', 'ident_nonneg(self)'), ('C05', 'all_unplaced_free(self)'),
+           ('C05', 'groups_ok(self)'), ('C05', 'held_distinct(self)'), ('C05', 'held_not_free(self)'), ('C05', 'ident_nonneg(self)'),
            ('C03', 'standing_ok(self, servers)'), ('C03', 'clock_now() >= old(clock_now())'),
            ('C03', 'only_unplaced(self)'),
            ('C08', 'forall(lambda n: implies(n in self.apps and old(self.apps[n].server) is not None and old(self.apps[n].server) in servers, self.apps[n].server == old(self.apps[n].server)), "Name")')])
@@ -558,13 +577,13 @@ contract(M + ':Cell._handle_blacklisted_apps',
          types={'queue': 'List[Application]', 'servers': 'Dict[Name,Server]'},
          requires=['covers(queue, self)', 'apps_ok(self)', 'srv_ok(servers)', 'back_ok(self, servers)',
                    'link_ok(self, servers)', 'tree_ok(servers)', 'ident_ok(self)',
-                   ('C05', 'groups_ok(self)'), ('C05', 'held_distinct(self)'), ('C05', 'held_not_free(self)'), ('C05', 'ident_nonneg(self)'), ('C05', 'all_unplaced_free(self)'),
+                   ('C05', 'groups_ok(self)'), ('C05', 'held_distinct(self)'), ('C05', 'held_not_free(self)'), ('C05', 'ident_nonneg(self)'),
                    ('C03', 'standing_ok(self, servers)'),
                    ('C04', 'tree_wf()'), ('C04', 'self.parent is None'), ('C04', 'limits_shared(self)'),
                    ('C04', 'lim_ok()')],
          ensures=[('C04', 'lim_ok()', 'lim_ok'), 'apps_ok(self)', 'srv_ok(servers)', 'back_ok(self, servers)', 'link_ok(self, servers)', 'ident_ok(self)',
-                  ('C05,C08', 'blacklist_ok(self)'),
-                  ('C05', 'groups_ok(self)'), ('C05', 'held_distinct(self)'), ('C05', 'held_not_free(self)'), ('C05', 'ident_nonneg(self)'), ('C05', 'all_unplaced_free(self)'),
+                  'blacklist_ok(self)',
+                  ('C05', 'groups_ok(self)'), ('C05', 'held_distinct(self)'), ('C05', 'held_not_free(self)'), ('C05', 'ident_nonneg(self)'),
                   ('C03', 'standing_ok(self, servers)'), ('C03', 'clock_now() >= old(clock_now())'),
                   ('C03', 'only_unplaced(self)'),
                   ('C08', 'forall(lambda n: implies(n in self.apps and not self.apps[n].blacklisted, self.apps[n].server == old(self.apps[n].server)), "Name")')],
@@ -572,9 +591,8 @@ contract(M + ':Cell._handle_blacklisted_apps',
 invariant(M + ':Cell._handle_blacklisted_apps', 0, 'for app in queue',
           [('C04', 'lim_ok()', 'lim_ok'), ('C04', 'tree_wf()'), ('C04', 'limits_shared(self)'),
            'srv_ok(servers)', 'back_ok(self, servers)', 'link_ok(self, servers)', 'ident_ok(self)',
-           ('C05,C08', 'forall(lambda j: implies(0 <= j and j < _i and queue[j].blacklisted, '
-                   '       queue[j].server is None), "Int")'),
-           ('C05', 'groups_ok(self)'), ('C05', 'held_distinct(self)'), ('C05', 'held_not_free(self)'), ('C05', 'ident_nonneg(self)'), ('C05', 'all_unplaced_free(self)'),
+           'forall(lambda j: implies(0 <= j and j < _i and queue[j].blacklisted, queue[j].server is None), "Int")',
+           ('C05', 'groups_ok(self)'), ('C05', 'held_distinct(self)'), ('C05', 'held_not_free(self)'), ('C05', 'ident_nonneg(self)'),
            ('C03', 'standing_ok(self, servers)'), ('C03', 'clock_now() >= old(clock_now())'),
            ('C03', 'only_unplaced(self)'),
            ('C08', 'forall(lambda n: implies(n in self.apps and not self.apps[n].blacklisted, self.apps[n].server == old(self.apps[n].server)), "Name")')])
@@ -582,16 +600,16 @@ invariant(M + ':Cell._handle_blacklisted_apps', 0, 'for app in queue',
 contract(M + ':Cell._fix_invalid_identities',
          types={'queue': 'List[Application]', 'servers': 'Dict[Name,Server]'},
          requires=['covers(queue, self)', 'apps_ok(self)', 'srv_ok(servers)', 'back_ok(self, servers)',
-                   'link_ok(self, servers)', 'tree_ok(servers)', 'ident_ok(self)', ('C05,C08', 'blacklist_ok(self)'),
-                   ('C05', 'groups_ok(self)'), ('C05', 'held_distinct(self)'), ('C05', 'held_not_free(self)'), ('C05', 'ident_nonneg(self)'), ('C05', 'all_unplaced_free(self)'),
+                   'link_ok(self, servers)', 'tree_ok(servers)', 'ident_ok(self)', 'blacklist_ok(self)',
+                   ('C05', 'groups_ok(self)'), ('C05', 'held_distinct(self)'), ('C05', 'held_not_free(self)'), ('C05', 'ident_nonneg(self)'),
                    ('C03', 'standing_ok(self, servers)'),
                    ('C04', 'tree_wf()'), ('C04', 'self.parent is None'), ('C04', 'limits_shared(self)'),
                    ('C04', 'lim_ok()')],
-         ensures=[('C04', 'lim_ok()', 'lim_ok'), 'apps_ok(self)', 'srv_ok(servers)', 'back_ok(self, servers)', 'link_ok(self, servers)', 'ident_ok(self)', ('C05,C08', 'blacklist_ok(self)'),
+         ensures=[('C04', 'lim_ok()', 'lim_ok'), 'apps_ok(self)', 'srv_ok(servers)', 'back_ok(self, servers)', 'link_ok(self, servers)', 'ident_ok(self)', 'blacklist_ok(self)',
                   ('C05', 'forall(lambda n: implies(n in self.apps and self.apps[n].identity is not None and '
                           '  self.apps[n].identity_group_ref is not None, '
                           '  self.apps[n].identity < self.apps[n].identity_group_ref.count), "Name")'),
-                  ('C05', 'groups_ok(self)'), ('C05', 'held_distinct(self)'), ('C05', 'held_not_free(self)'), ('C05', 'ident_nonneg(self)'), ('C05', 'all_unplaced_free(self)'),
+                  ('C05', 'groups_ok(self)'), ('C05', 'held_distinct(self)'), ('C05', 'held_not_free(self)'), ('C05', 'ident_nonneg(self)'),
                   ('C03', 'standing_ok(self, servers)'), ('C03', 'clock_now() >= old(clock_now())'),
                   ('C03', 'only_unplaced(self)'),
                   ('C08', 'forall(lambda n: implies(n in self.apps and (old(self.apps[n].identity) is None or self.apps[n].identity_group_ref is None or old(self.apps[n].identity) < self.apps[n].identity_group_ref.count), self.apps[n].server == old(self.apps[n].server)), "Name")'),
@@ -599,11 +617,11 @@ contract(M + ':Cell._fix_invalid_identities',
          modifies=PREPASS_MODIFIES, props=['C01', 'C05'])
 invariant(M + ':Cell._fix_invalid_identities', 0, 'for app in queue',
           [('C04', 'lim_ok()', 'lim_ok'), ('C04', 'tree_wf()'), ('C04', 'limits_shared(self)'),
-           'srv_ok(servers)', 'back_ok(self, servers)', 'link_ok(self, servers)', 'ident_ok(self)', ('C05,C08', 'blacklist_ok(self)'),
+           'srv_ok(servers)', 'back_ok(self, servers)', 'link_ok(self, servers)', 'ident_ok(self)', 'blacklist_ok(self)',
            ('C05,C08', 'forall(lambda j: implies(0 <= j and j < _i and queue[j].identity is not None and '
                    '  queue[j].identity_group_ref is not None, '
                    '  queue[j].identity < queue[j].identity_group_ref.count), "Int")'),
-           ('C05', 'groups_ok(self)'), ('C05', 'held_distinct(self)'), ('C05', 'held_not_free(self)'), ('C05', 'ident_nonneg(self)'), ('C05', 'all_unplaced_free(self)'),
+           ('C05', 'groups_ok(self)'), ('C05', 'held_distinct(self)'), ('C05', 'held_not_free(self)'), ('C05', 'ident_nonneg(self)'),
            ('C03', 'standing_ok(self, servers)'), ('C03', 'clock_now() >= old(clock_now())'),
            ('C03', 'only_unplaced(self)'),
            ('C08', 'forall(lambda n: implies(n in self.apps and (old(self.apps[n].identity) is None or self.apps[n].identity_group_ref is None or old(self.apps[n].identity) < self.apps[n].identity_group_ref.count), self.apps[n].server == old(self.apps[n].server)), "Name")'),
@@ -622,13 +640,13 @@ contract(M + ':Cell._handle_inactive_servers',
          types={'servers': 'Dict[Name,Server]', 'to_be_moved': 'List[Application]'},
          requires=['apps_ok(self)', 'srv_ok(servers)', 'back_ok(self, servers)', 'link_ok(self, servers)',
                    'tree_ok(servers)', 'ident_ok(self)',
-                   ('C05', 'groups_ok(self)'), ('C05', 'held_distinct(self)'), ('C05', 'held_not_free(self)'), ('C05', 'ident_nonneg(self)'), ('C05', 'all_unplaced_free(self)'),
+                   ('C05', 'groups_ok(self)'), ('C05', 'held_distinct(self)'), ('C05', 'held_not_free(self)'), ('C05', 'ident_nonneg(self)'),
                    ('C03', 'standing_ok(self, servers)'),
                    ('C04', 'tree_wf()'), ('C04', 'self.parent is None'), ('C04', 'limits_shared(self)'),
                    ('C04', 'lim_ok()')],
          ensures=[('C04', 'lim_ok()', 'lim_ok'), 'apps_ok(self)', 'srv_ok(servers)', 'back_ok(self, servers)', 'link_ok(self, servers)',
                   'ident_ok(self)',
-                  ('C05', 'groups_ok(self)'), ('C05', 'held_distinct(self)'), ('C05', 'held_not_free(self)'), ('C05', 'ident_nonneg(self)'), ('C05', 'all_unplaced_free(self)'),
+                  ('C05', 'groups_ok(self)'), ('C05', 'held_distinct(self)'), ('C05', 'held_not_free(self)'), ('C05', 'ident_nonneg(self)'),
                   ('C03', 'standing_ok(self, servers)'), ('C03', 'clock_now() >= old(clock_now())'),
                   ('C03', 'only_unplaced(self)'),
                   ('C08', 'kept_ok(self, servers)')],
@@ -636,7 +654,7 @@ contract(M + ':Cell._handle_inactive_servers',
 invariant(M + ':Cell._handle_inactive_servers', 0, 'for server in servers.values()',
           [('C04', 'lim_ok()', 'lim_ok'), ('C04', 'tree_wf()'), ('C04', 'limits_shared(self)'),
            'srv_ok(servers)', 'back_ok(self, servers)', 'link_ok(self, servers)', 'ident_ok(self)',
-           ('C05', 'groups_ok(self)'), ('C05', 'held_distinct(self)'), ('C05', 'held_not_free(self)'), ('C05', 'ident_nonneg(self)'), ('C05', 'all_unplaced_free(self)'),
+           ('C05', 'groups_ok(self)'), ('C05', 'held_distinct(self)'), ('C05', 'held_not_free(self)'), ('C05', 'ident_nonneg(self)'),
            ('C03', 'standing_ok(self, servers)'), ('C03', 'clock_now() >= old(clock_now())'),
            ('C03', 'only_unplaced(self)'),
            ('C08', 'kept_ok(self, servers)')])
@@ -648,7 +666,7 @@ invariant(M + ':Cell._handle_inactive_servers', 1, 'for (name, app) in server.ap
            '       server.apps[to_be_moved[p].name] == to_be_moved[p] and _pos(to_be_moved[p].name) < _i), "Int")',
            'forall(lambda p, q: implies(0 <= p and p < q and q < len(to_be_moved), '
            '       _pos(to_be_moved[p].name) < _pos(to_be_moved[q].name)), "Int", "Int")',
-           ('C05', 'groups_ok(self)'), ('C05', 'held_distinct(self)'), ('C05', 'held_not_free(self)'), ('C05', 'ident_nonneg(self)'), ('C05', 'all_unplaced_free(self)'),
+           ('C05', 'groups_ok(self)'), ('C05', 'held_distinct(self)'), ('C05', 'held_not_free(self)'), ('C05', 'ident_nonneg(self)'),
            ('C03', 'standing_ok(self, servers)'), ('C03', 'clock_now() >= old(clock_now())'),
            ('C03', 'only_unplaced(self)'),
            ('C08', 'kept_ok(self, servers)'),
@@ -660,7 +678,7 @@ invariant(M + ':Cell._handle_inactive_servers', 2, 'for app in to_be_moved',
           [('C04', 'lim_ok()', 'lim_ok'), ('C04', 'tree_wf()'), ('C04', 'limits_shared(self)'),
            'srv_ok(servers)', 'back_ok(self, servers)', 'link_ok(self, servers)', 'ident_ok(self)',
            'moved_ok(to_be_moved, server, _i)',
-           ('C05', 'groups_ok(self)'), ('C05', 'held_distinct(self)'), ('C05', 'held_not_free(self)'), ('C05', 'ident_nonneg(self)'), ('C05', 'all_unplaced_free(self)'),
+           ('C05', 'groups_ok(self)'), ('C05', 'held_distinct(self)'), ('C05', 'held_not_free(self)'), ('C05', 'ident_nonneg(self)'),
            ('C03', 'standing_ok(self, servers)'), ('C03', 'clock_now() >= old(clock_now())'),
            ('C03', 'only_unplaced(self)'),
            ('C08', 'kept_ok(self, servers)'),
@@ -697,7 +715,11 @@ contract(M + ':Allocation.utilization_queue',
          ensures=['forall(lambda j: implies(0 <= j and j < len(result), result[j][5].name in cell.apps and '
                   '       cell.apps[result[j][5].name] == result[j][5]), "Int")',
                   'forall(lambda i, j: implies(0 <= i and i < j and j < len(result), '
-                  '       result[i][5] != result[j][5]), "Int", "Int")'],
+                  '       result[i][5] != result[j][5]), "Int", "Int")',
+                  # exactly the cell's instances of this partition
+                  ('C05', 'forall(lambda j: implies(0 <= j and j < len(result), app_label(result[j][5]) == self.label), "Int")'),
+                  ('C05', 'forall(lambda n: implies(n in cell.apps and app_label(cell.apps[n]) == self.label, '
+                          '  exists(lambda j: 0 <= j and j < len(result) and result[j][5] == cell.apps[n], "Int")), "Name")')],
          assumed=True,
          note='C06 clause 1 (each instance of the allocation tree exactly once; instances of the tree are '
               'the cell\'s instances of that partition): assumed here, stated and checked under C06')
@@ -719,12 +741,18 @@ contract(M + ':Cell.schedule_alloc',
          types={'allocation': 'Allocation', 'servers': 'Dict[Name,Server]',
                 'util_queue': 'List[Tuple[Int,Ext,Ext,Int,Int,Application]]', 'queue': 'List[Application]'},
          requires=['alloc_in_cell(allocation, self)', 'cycle_pre(self, servers)', 'link_ok(self, servers)',
-                   'ident_ok(self)', ('C05', 'groups_ok(self)'), ('C05', 'held_distinct(self)'), ('C05', 'held_not_free(self)'), ('C05', 'ident_nonneg(self)'), ('C05', 'all_unplaced_free(self)'), ('C05', 'in_range_ok(self)'),
-                   ('C05,C08', 'blacklist_ok(self)'),
+                   'ident_ok(self)', ('C05', 'groups_ok(self)'), ('C05', 'held_distinct(self)'), ('C05', 'held_not_free(self)'), ('C05', 'ident_nonneg(self)'), ('C05', 'in_range_ok(self)'),
+                   'blacklist_ok(self)',
                    ('C03', 'standing_ok(self, servers)'), ('C04', 'tree_wf()'), ('C04', 'self.parent is None'), ('C04', 'limits_shared(self)'), ('C04', 'lim_ok()')],
-         ensures=[('C04', 'lim_ok()', 'lim_ok'), 'cycle_pre(self, servers)', 'link_ok(self, servers)', 'ident_ok(self)', ('C05', 'groups_ok(self)'), ('C05', 'held_distinct(self)'), ('C05', 'held_not_free(self)'), ('C05', 'ident_nonneg(self)'), ('C05', 'all_unplaced_free(self)'),
+         ensures=[('C04', 'lim_ok()', 'lim_ok'),
+                  ('C05', 'forall(lambda n: implies(n in self.apps and app_label(self.apps[n]) == allocation.label, '
+                          '       unplaced_free(self.apps[n])), "Name")', 'partition_free'),
+                  ('C05', 'forall(lambda n: implies(n in self.apps and app_label(self.apps[n]) != allocation.label, '
+                          '       self.apps[n].server == old(self.apps[n].server) and '
+                          '       self.apps[n].identity == old(self.apps[n].identity)), "Name")', 'others_untouched'),
+                  'cycle_pre(self, servers)', 'link_ok(self, servers)', 'ident_ok(self)', ('C05', 'groups_ok(self)'), ('C05', 'held_distinct(self)'), ('C05', 'held_not_free(self)'), ('C05', 'ident_nonneg(self)'),
                   ('C05', 'in_range_ok(self)'),
-                  ('C05,C08', 'blacklist_ok(self)'),
+                  'blacklist_ok(self)',
                   ('C03', 'standing_ok(self, servers)'), ('C03', 'clock_now() >= old(clock_now())'),
                   ('C03', 'forall(lambda n: implies(n in self.apps and self.apps[n].server is not None and '
                           '  self.apps[n].server != old(self.apps[n].server), assigned_ok(self.apps[n], servers)), "Name")'),
@@ -741,16 +769,19 @@ contract(M + ':Cell.schedule',
                    'ident_weak(self, MEMBERS)',
                    'forall(lambda l: implies(l in self.partitions, '
                    '       alloc_in_cell(self.partitions[l].allocation, self)), "Opt[Name]")',
-                   ('C05', 'groups_ok(self)'), ('C05', 'held_distinct(self)'), ('C05', 'held_not_free(self)'), ('C05', 'ident_nonneg(self)'), ('C05', 'all_unplaced_free(self)'),
+                   ('C05', 'groups_ok(self)'), ('C05', 'held_distinct(self)'), ('C05', 'held_not_free(self)'), ('C05', 'ident_nonneg(self)'),
                    ('C03', 'standing_ok(self, MEMBERS)'),
-                   ('C03', 'forall(lambda l: implies(l in self.partitions, self.partitions[l].allocation.label == l), "Opt[Name]")'),
+                   ('C03,C05', 'forall(lambda l: implies(l in self.partitions, self.partitions[l].allocation.label == l), "Opt[Name]")'),
+                   ('C05', 'forall(lambda n: implies(n in self.apps, app_label(self.apps[n]) in self.partitions), "Name")'),
                    ('C04', 'tree_wf()'), ('C04', 'self.parent is None'), ('C04', 'limits_shared(self)'), ('C04', 'lim_ok()')],
          ensures=[# C04: after the cycle the count of an affinity is within its limit at every node of the tree
                   ('C04', 'lim_ok()', 'lim_ok'),
                   ('C01', 'srv_ok(MEMBERS)'), ('C01', 'link_ok(self, MEMBERS)'), ('C01', 'back_ok(self, MEMBERS)'),
                   ('C01', 'apps_ok(self)'), ('C05', 'ident_ok(self)'),
                   # C05: unique, in range, held by every placed instance of a group, and only by placed ones
-                  ('C05', 'groups_ok(self)'), ('C05', 'held_distinct(self)'), ('C05', 'held_not_free(self)'), ('C05', 'ident_nonneg(self)'), ('C05', 'all_unplaced_free(self)'), ('C05', 'in_range_ok(self)'),
+                  ('C05', 'groups_ok(self)'), ('C05', 'held_distinct(self)'), ('C05', 'held_not_free(self)'), ('C05', 'ident_nonneg(self)'), ('C05', 'in_range_ok(self)'),
+                  # clause 4, for every instance of the cell, whatever was held when the cycle started
+                  ('C05', 'all_unplaced_free(self)', 'all_unplaced_free'),
                   # C03: assignments of this cycle, and the standing clause
                   ('C03', 'forall(lambda n: implies(n in self.apps and self.apps[n].server is not None and '
                           '  self.apps[n].server != old(self.apps[n].server), assigned_ok(self.apps[n], MEMBERS)), "Name")'),
@@ -763,10 +794,13 @@ invariant(M + ':Cell.schedule', 0, 'for (label, partition) in six.iteritems(self
 invariant(M + ':Cell.schedule', 1, 'for (label, partition) in six.iteritems(self.partitions)',
           ['cycle_pre(self, servers)', 'link_ok(self, servers)', 'ident_ok(self)', 'servers == MEMBERS',
            ('C04', 'lim_ok()', 'lim_ok'),
-           ('C05', 'groups_ok(self)'), ('C05', 'held_distinct(self)'), ('C05', 'held_not_free(self)'), ('C05', 'ident_nonneg(self)'), ('C05', 'all_unplaced_free(self)'), ('C05', 'in_range_ok(self)'),
-           ('C05,C08', 'blacklist_ok(self)'),
+           ('C05', 'groups_ok(self)'), ('C05', 'held_distinct(self)'), ('C05', 'held_not_free(self)'), ('C05', 'ident_nonneg(self)'), ('C05', 'in_range_ok(self)'),
+           # an instance still unplaced with an identity belongs to a partition whose queue is still to be walked
+           ('C05', 'forall(lambda n: implies(n in self.apps and not unplaced_free(self.apps[n]), '
+                   '       _i <= _pos(app_label(self.apps[n]))), "Name")', 'holders_ahead'),
+           'blacklist_ok(self)',
            ('C03', 'standing_ok(self, servers)'), ('C03', 'clock_now() >= old(clock_now())'),
-           ('C03', 'forall(lambda l: implies(l in self.partitions, self.partitions[l].allocation.label == l), "Opt[Name]")'),
+           ('C03,C05', 'forall(lambda l: implies(l in self.partitions, self.partitions[l].allocation.label == l), "Opt[Name]")'),
            ('C03', 'forall(lambda n: implies(n in self.apps and self.apps[n].server is not None and '
                    '  self.apps[n].server != old(self.apps[n].server), assigned_ok(self.apps[n], servers)), "Name")'),
            ('C03', 'lease_same(self)')])
@@ -791,7 +825,7 @@ def refs_ok(cell):
 def ident_between(cell):
     """What the identity clauses need to hold between cycles (events preserve it, cycles rely on it)."""
     return (groups_ok(cell) and held_distinct(cell) and held_not_free(cell) and ident_nonneg(cell) and
-            all_unplaced_free(cell) and refs_ok(cell) and
+            refs_ok(cell) and
             forall(lambda g: implies(g in cell.identity_groups, cell.identity_groups[g].count >= 0), 'Name') and
             forall(lambda g, i: implies(g in cell.identity_groups and i in cell.identity_groups[g].available,
                                         0 <= i and i < cell.identity_groups[g].count), 'Name', 'Int'))
@@ -808,7 +842,7 @@ contract(M + ':Cell.configure_identity_group', types={'name': 'Name', 'count': '
          ensures=[('C05', 'groups_ok(self)'), ('C05', 'held_distinct(self)'),
                   # a grown group must not hand out an identity that is still held
                   ('C05', 'held_not_free(self)'),
-                  ('C05', 'ident_nonneg(self)'), ('C05', 'all_unplaced_free(self)'), ('C05', 'refs_ok(self)'),
+                  ('C05', 'ident_nonneg(self)'), ('C05', 'refs_ok(self)'),
                   'name in self.identity_groups and self.identity_groups[name].count == count'],
          modifies=['self.identity_groups', 'alloc', ('IdentityGroup.count', 'lambda g: True'),
                    ('IdentityGroup.available', 'lambda g: True')],
@@ -829,7 +863,7 @@ invariant(M + ':Cell.configure_identity_group', 0, 'for app in six.itervalues(se
 contract(M + ':Cell.remove_identity_group', types={'name': 'Name', 'ident_group': 'Opt[IdentityGroup]'},
          requires=['ident_between(self)'],
          ensures=[('C05', 'groups_ok(self)'), ('C05', 'held_distinct(self)'), ('C05', 'held_not_free(self)'),
-                  ('C05', 'ident_nonneg(self)'), ('C05', 'all_unplaced_free(self)'), ('C05', 'refs_ok(self)')],
+                  ('C05', 'ident_nonneg(self)'), ('C05', 'refs_ok(self)')],
          modifies=['self.identity_groups', ('IdentityGroup.count', 'lambda g: True'),
                    ('IdentityGroup.available', 'lambda g: True')],
          props=['C05'])
@@ -859,7 +893,7 @@ contract(M + ':Cell.add_app', types={'allocation': 'Allocation', 'app': 'Applica
                    ' forall(lambda n: implies(n in MEMBERS, app.name not in MEMBERS[n].apps), "Name"))'],
          ensures=[('C01', 'between_cycles(self, MEMBERS)'), 'app.name in self.apps and self.apps[app.name] == app',
                   ('C05', 'groups_ok(self)'), ('C05', 'held_distinct(self)'), ('C05', 'held_not_free(self)'),
-                  ('C05', 'ident_nonneg(self)'), ('C05', 'all_unplaced_free(self)'), ('C05', 'refs_ok(self)'),
+                  ('C05', 'ident_nonneg(self)'), ('C05', 'refs_ok(self)'),
                   ('C05', 'ident_weak(self, MEMBERS)'),
                   # C03 standing clause: moving an instance to another allocation must leave it on a server of
                   # its (new) partition with its (new) traits
@@ -873,7 +907,7 @@ contract(M + ':Cell.remove_app', types={'appname': 'Name', 'servers': 'Dict[Name
                    'ident_weak(self, MEMBERS)', 'tree_ok(MEMBERS)'],
          ensures=[('C01', 'between_cycles(self, MEMBERS)'), 'appname not in self.apps',
                   ('C05', 'groups_ok(self)'), ('C05', 'held_distinct(self)'), ('C05', 'held_not_free(self)'),
-                  ('C05', 'ident_nonneg(self)'), ('C05', 'all_unplaced_free(self)'), ('C05', 'refs_ok(self)'),
+                  ('C05', 'ident_nonneg(self)'), ('C05', 'refs_ok(self)'),
                   ('C05', 'ident_weak(self, MEMBERS)')],
          modifies=['self.apps', ('Allocation.apps', 'lambda a: True'), ('Application.allocation', 'lambda a: True')]
          + PREPASS_MODIFIES, props=['C01', 'C05'])
